@@ -14,6 +14,7 @@ import (
 
 	"verifsim/refproto"
 	"verifsim/simnet"
+	"verifsim/spec"
 )
 
 // Tap decodes everything that crosses the simulated network with the
@@ -47,6 +48,8 @@ type Tap struct {
 	attack  map[string]bool // flows / conn addrs that belong to attackers (not real endpoints)
 	replied map[string]int  // bytes/datagrams sent by the server towards an attacker flow
 	kinds   map[string]int  // segment kinds seen (reach)
+	geo     []spec.SegGeo
+	wire    map[string][]byte
 }
 
 type streamTap struct {
@@ -93,10 +96,11 @@ type sessTap struct {
 }
 
 func newTap(w *World) *Tap {
+	simStart = w.start
 	t := &Tap{w: w, keys: map[string][32]byte{}, peeked: map[int]*refproto.Segment{}, streams: map[int]*streamTap{},
 		sess: map[string]*sessTap{}, flowSeen: map[string]int{}, lastKey: map[string][32]byte{}, lastUser: map[string]string{},
 		eff: map[string]*appctlpb.TrafficPattern{}, orig: map[string]*appctlpb.TrafficPattern{}, mtu: map[string]int{},
-		attack: map[string]bool{}, replied: map[string]int{}, kinds: map[string]int{}}
+		attack: map[string]bool{}, replied: map[string]int{}, kinds: map[string]int{}, wire: map[string][]byte{}}
 	for _, u := range w.Spec.Server.Users {
 		t.creds = append(t.creds, refproto.Cred{User: u.Name, Password: u.Password})
 	}
@@ -306,6 +310,11 @@ func (t *Tap) StreamBytes(c *simnet.ConnInfo, dir simnet.Dir, off int64, b []byt
 	}
 	if dir == simnet.S2C && st.dec[1] == nil {
 		key, user, slot, ok := st.dec[0].Key()
+		if !ok && t.w.connTampered(c.ID) {
+			st.failed[1] = true
+			t.mu.Unlock()
+			return
+		}
 		if !ok {
 			st.failed[1] = true
 			t.mu.Unlock()
@@ -316,12 +325,24 @@ func (t *Tap) StreamBytes(c *simnet.ConnInfo, dir simnet.Dir, off int64, b []byt
 	}
 	segs, err := st.dec[dir].Feed(b, t.unixNow())
 	var todo []func()
+	if t.w.Spec.Dump {
+		k := fmt.Sprintf("tcp#%d/%d", c.ID, dir)
+		if len(t.wire[k]) < 1<<20 {
+			t.wire[k] = append(t.wire[k], b...)
+		}
+	}
 	for _, s := range segs {
 		t.segs++
 		t.kinds[kindName(s.Meta.Type)+"/tcp"]++
+		if t.w.Spec.Dump {
+			t.geo = append(t.geo, geoOf(s, fmt.Sprintf("tcp#%d", c.ID), st.client, c.ID, int(dir), -1))
+		}
 		todo = append(todo, t.onStreamSegment(st, dir, s)...)
 	}
-	if err != nil {
+	if err != nil && t.w.connTampered(c.ID) {
+		st.failed[dir] = true
+		t.w.probes["tap-gave-up-on-tampered-conn"]++
+	} else if err != nil {
 		st.failed[dir] = true
 		cid, d, e, o := c.ID, dir, err.Error(), st.dec[dir].Offset()
 		todo = append(todo, func() {
@@ -548,6 +569,12 @@ func (t *Tap) DatagramSent(d *simnet.Datagram) {
 			w.Net.Logf("  seg #%d %s sess=%d seq=%d unack=%d win=%d frag=%d pre=%d pay=%d suf=%d fate=%s", d.ID, kindName(s.Meta.Type), s.Meta.SessionID, s.Meta.Seq, s.Meta.UnAckSeq, s.Meta.Window, s.Meta.Fragment, s.Meta.PrefixLen, len(s.Payload), s.Meta.SuffixLen, d.Fate.Why)
 		}
 		ci := t.clientOfAddr(d.Flow)
+		if w.Spec.Dump {
+			t.geo = append(t.geo, geoOf(s, d.Flow, ci, -1, int(d.Dir), d.Index))
+			if len(t.wire) < 5000 {
+				t.wire[fmt.Sprintf("%s/%d/%d", d.Flow, d.Dir, d.Index)] = d.Data
+			}
+		}
 		ss := t.sessFor(d.Flow, s.Meta.SessionID, true, ci)
 		// C14: MTU of the sender
 		if mtu := t.mtu[name]; mtu > 0 && len(d.Data) > mtu {
@@ -752,4 +779,15 @@ func (t *Tap) handshakePending(flow string, id uint32) bool {
 	defer t.mu.Unlock()
 	ss := t.sess[fmt.Sprintf("%s/%d", flow, id)]
 	return ss == nil || !ss.hsDone
+}
+
+var simStart time.Time
+
+func geoOf(s *refproto.Segment, scope string, client, conn, dir, index int) spec.SegGeo {
+	g := spec.SegGeo{AtUs: time.Since(simStart).Microseconds(), Scope: scope, Client: client, Conn: conn, Dir: dir, Index: index, Type: int(s.Meta.Type), Sess: s.Meta.SessionID, Seq: s.Meta.Seq, Start: s.Geo.Start, End: s.Geo.End}
+	sp := []refproto.Span{s.Geo.Nonce, s.Geo.EncMeta, s.Geo.MetaTag, s.Geo.Padding1, s.Geo.Body, s.Geo.PayloadTag, s.Geo.Padding2}
+	for i, x := range sp {
+		g.Spans[i] = [2]int64{x.Off, x.End}
+	}
+	return g
 }
